@@ -408,7 +408,9 @@ def run_case(case, part):
             except (KeyError, IndexError, TypeError):
                 continue
             inj = i1 if i1 in MUST_REFUSE else i2_
-            if "extdef-toplevel-extension" in (i1, i2_) and {i1, i2_} & {"x-property", "unknown-property", "custom_properties-in-json"} and () in (p1, p2):
+            toplevel_extras = {"x-property", "unknown-property", "custom_properties-in-json", "x-property-next-to-unregistered-property-extension", "x-property-next-to-unregistered-new-sdo",
+                               "x-property-next-to-unregistered-x-toplevel-property-extension"}
+            if "extdef-toplevel-extension" in (i1, i2_) and {i1, i2_} & toplevel_extras and () in (p1, p2):
                 # an unregistered toplevel-property-extension on the same object: the library must assume every extra top-level property belongs to it
                 # (base.py, "Must assume all extras are extension properties, not custom"), so the pair is judged by the equivalence clause only
                 inj = None
